@@ -1041,6 +1041,19 @@ class unyt_array(np.ndarray):
         >>> print(E.in_base("mks"))
         2.5e-07 W
         """
+        if self.dtype.kind in ("u", "i"):
+            # integer data are converted in the float type of the same item
+            # size, with the same overflow warning as in_units
+            dsize = max(2, self.dtype.itemsize)
+            large = LARGE_INPUT.get(dsize, 0)
+            if large and np.any(np.abs(self.d) >= large):
+                new_units = self.units.get_base_equivalent(unit_system)
+                warnings.warn(
+                    f"Overflow encountered while converting to units '{new_units}'",
+                    RuntimeWarning,
+                    stacklevel=2,
+                )
+            return self.astype("f" + str(dsize)).in_base(unit_system)
         us = _sanitize_unit_system(unit_system, self)
         try:
             conv_data = _check_em_conversion(
